@@ -1,5 +1,5 @@
 (* Extraction of the property-layer model (ExtrOcamlBasic only). *)
-From KDB Require Import PropDefs PropFn PropCheck PropLink.
+From KDB Require Import PropDefs PropFn PropCheck PropLink PropFragment.
 Require Import ExtrOcamlBasic.
 Extraction Language OCaml.
-Extraction "propmodel.ml" step run world0 fn_std values check_c02 check_c06_after_evalall check_links pinv_b okxb footprint.
+Extraction "propmodel.ml" step run world0 fn_std values check_c02 check_c06_after_evalall check_links pinv_b okxb footprint in_c02_fragment in_c06_fragment act_opb.
